@@ -15,6 +15,10 @@ Statements: {"s":"set","p":i,"v":n} {"s":"update","kvs":[[i,n],..]} {"s":"update
 import sys
 
 
+SLOTS = {0: 'value', 1: 'precedence', 2: 'step'}
+WHAT = {v: k for k, v in SLOTS.items()}
+
+
 class Boom(Exception):
     pass
 
@@ -54,6 +58,10 @@ class Runner:
         # the same programs run on an instance or on the class itself (class-level watchers and assignment)
         self.on_class = case.get('level') == 'class'
         self.obj = self.cls if self.on_class else self.cls()
+        # the watchable Parameter attributes start at 0 (they default to None)
+        for i, nm in enumerate(self.names):
+            for k in self._slots_of(i):
+                setattr(self.obj.param[nm], SLOTS[k], 0)
         self.wobjs = {}          # watcher id -> Watcher object
         self.cbs = {}            # callback id -> function (registrations may share a callback)
         self.stack = [[]]
@@ -65,13 +73,16 @@ class Runner:
         p = self.obj.param
         return bool(p._BATCH_WATCH), bool(p._TRIGGER)
 
-    def _wlist(self, name):
-        if self.on_class:
-            return self.cls.param[name].watchers.get('value', [])
+    def _slots_of(self, i):
+        return [1] if i in self.events else [1, 2]
+
+    def _wlist(self, name, k=0):
+        if self.on_class or k:
+            return self.obj.param[name].watchers.get(SLOTS[k], [])
         return self.obj._param__private.watchers.get(name, {}).get('value', [])
 
-    def _regs(self, i):
-        lst = self._wlist(self.names[i])
+    def _regs(self, i, k=0):
+        lst = self._wlist(self.names[i], k)
         ids = {id(w): k for k, w in self.wobjs.items()}
         return [ids.get(id(w), -1) for w in lst]
 
@@ -88,10 +99,12 @@ class Runner:
         b, t = self._flags()
         regs = []
         for k, w in self.wobjs.items():
-            if any(any(x is w for x in self._wlist(n)) for n in self.names):
+            if any(any(x is w for x in self._wlist(n, k)) for n in self.names for k in (0, 1, 2)):
                 regs.append(k)
         return {'vals': [self._val(i) for i in range(len(self.names))], 'batch': b, 'trigger': t,
-                'events': [[self.names.index(e.name), int(e.old), int(e.new)] for e in p._events],
+                'events': [[self.names.index(e.name), int(e.old), int(e.new), WHAT[e.what]] for e in p._events],
+                'slots': [[i, k, int(getattr(self.obj.param[n], SLOTS[k]) or 0) if k in self._slots_of(i) else 0]
+                          for i, n in enumerate(self.names) for k in (1, 2)],
                 'queued': [ids.get(id(w), -1) for w in p._state_watchers],
                 'regs': self._order_regs(regs)}
 
@@ -109,7 +122,7 @@ class Runner:
                 caller = sys._getframe(2).f_code.co_name if sys._getframe(1).f_code.co_name == '_execute_watcher' else '?'
                 via = {'_call_watcher': False, '_batch_call_watchers': True}.get(caller)
                 node = {'t': 'call', 'w': cbid,
-                        'evs': [[runner.names.index(e.name), int(e.old), int(e.new), e.type] for e in events],
+                        'evs': [[runner.names.index(e.name), int(e.old), int(e.new), e.type, WHAT[e.what]] for e in events],
                         'flush': via, 'snap': [runner._val(i) for i in range(len(runner.names))], 'ch': [], 'res': None}
                 runner.stack[-1].append(node)
                 runner.stack.append(node['ch'])
@@ -123,6 +136,7 @@ class Runner:
                     runner.stack.pop()
             self.cbs[cbid] = cb
         self.wobjs[wid] = self.obj.param.watch(self.cbs[cbid], [self.names[i] for i in w['params']],
+                                               what=SLOTS[w.get('what', 0)],
                                                onlychanged=w['onlychanged'], queued=w['queued'],
                                                precedence=w['precedence'])
 
@@ -165,6 +179,11 @@ class Runner:
             p = s['p']
             node = self._node('set', p, self._val(p), s['v'], self._regs(p))
             self._in(node, lambda: setattr(obj, self.names[p], self._py(p, s['v'])))
+        elif k == 'setSlot':
+            p, sl = s['p'], s['k']
+            pobj = obj.param[self.names[p]]
+            node = self._node(f'setSlot{sl}', p, int(getattr(pobj, SLOTS[sl]) or 0), s['v'], self._regs(p, sl))
+            self._in(node, lambda: setattr(pobj, SLOTS[sl], s['v']))
         elif k == 'update':
             kvs = list(dict((a, b) for a, b in s['kvs']).items())
             node = self._node('update')
@@ -299,6 +318,9 @@ def gen_case(rng, prop, max_params=4, max_watchers=5, faults=False, size=8):
         w = {'id': state['next_wid'], 'params': ps, 'onlychanged': rng.random() < 0.6,
              'queued': rng.random() < 0.3, 'precedence': rng.choice([0, 0, 0, 1, 2, 5]), 'body': body_idx}
         w['cb'] = w['id']
+        if rng.random() < 0.15:
+            # a watcher of a Parameter attribute; Event parameters only have `precedence`
+            w['what'] = 1 if any(p in events for p in ps) else rng.choice([1, 2])
         state['next_wid'] += 1
         return w
 
@@ -319,7 +341,7 @@ def gen_case(rng, prop, max_params=4, max_watchers=5, faults=False, size=8):
 
     def stmt(depth, limit, in_body):
         """limit: parameters < limit may be assigned"""
-        kinds = ['set'] * 5 + ['update'] * 2 + ['batch', 'discard', 'trigger', 'try', 'updateCtx']
+        kinds = ['set'] * 5 + ['update'] * 2 + ['batch', 'discard', 'trigger', 'try', 'updateCtx', 'setSlot']
         if not in_body:
             kinds += ['watch', 'unwatch']
         if faults:
@@ -338,6 +360,9 @@ def gen_case(rng, prop, max_params=4, max_watchers=5, faults=False, size=8):
         if k == 'set':
             p = rng.randrange(limit)
             return {'s': 'set', 'p': p, 'v': pv(p)}
+        if k == 'setSlot':
+            p = rng.randrange(limit)
+            return {'s': 'setSlot', 'p': p, 'k': 1 if p in events else rng.choice([1, 2]), 'v': rng.choice([0, 1, 1, 2, 3])}
         if k == 'update':
             ks = rng.sample(range(limit), rng.randint(1, min(limit, 3)))
             return {'s': 'update', 'kvs': [[i, pv(i)] for i in ks]}
